@@ -164,7 +164,8 @@ fn main() {
                             break;
                         }
                         let case = sched::Case { init: "expired", setup: setup.clone(), programs: programs.clone() };
-                        if !sched::linearizable(&case, &|| sched::apply_setup(&setup), &outcome) {
+                        let ticked = l.split(' ').any(|t| t == "T");
+                        if !sched::linearizable(&case, &|| sched::apply_setup(&setup), &outcome, ticked) {
                             let ws = sched::windows(&outcome.steps, &programs);
                             let only_c03 = programs.iter().flatten().all(|f| matches!(f[1], 0x00 | 0x01 | 0x04));
                             let mut props: Vec<&'static str> = if only_c03 { vec!["C03", "C04"] } else { vec!["C04"] };
